@@ -24,6 +24,35 @@ class Untranslatable(Exception):
     pass
 
 
+# the documented reserved words of FloScript (connectives + comparisons); Reserved must consist of
+# single words from this set, and must contain every one of them that a parser tests literally
+DOCUMENTED = ['to', 'by', 'with', 'from', 'per', 'for', 'cum', 'qua', 'via', 'as', 'at', 'in', 'of', 'on', 're',
+              'is', 'if', 'be', 'into', 'and', 'not', '+-', 'rx', 'tx', '==', '<', '<=', '>=', '>', '!=']
+
+
+def parser_connective_literals(cls):
+    """string literals the command parsers compare against the current token as a connective:
+    `connective == 'x'`, `connective in ('x', ..)`, `tokens[index] in [..]`, `tokens[index] == 'x'`"""
+    words = set()
+    for fn in cls.body:
+        if not isinstance(fn, ast.FunctionDef) or fn.name in ("tokenize", "build"):
+            continue
+        for n in ast.walk(fn):
+            if not isinstance(n, ast.Compare) or len(n.ops) != 1:
+                continue
+            left = ast.unparse(n.left)
+            if left not in ("connective", "tokens[index]"):
+                continue
+            c = n.comparators[0]
+            if isinstance(c, ast.Constant) and isinstance(c.value, str):
+                words.add(c.value)
+            elif isinstance(c, (ast.List, ast.Tuple)):
+                for e in c.elts:
+                    if isinstance(e, ast.Constant) and isinstance(e.value, str):
+                        words.add(e.value)
+    return sorted(words)
+
+
 def _need(cond, what):
     if not cond:
         raise Untranslatable(what)
@@ -108,6 +137,9 @@ def extract(repo):
                 and n.targets[0].id in ("Comparisons", "Connectives", "Reserved"):
             env[n.targets[0].id] = _const_list(n.value, env)
     _need("Reserved" in env, "Reserved not found")
+    for w in env["Reserved"]:
+        _need(w in DOCUMENTED, "Reserved entry %r is not a single documented connective/comparison "
+                               "(a lost comma concatenates two entries)" % w)
     out["reserved"] = env["Reserved"]
 
     # ---- chunk regex ----------------------------------------------------------------------
@@ -185,6 +217,7 @@ def extract(repo):
     _need(len(reserveds) == 1 and isinstance(reserveds[0], ast.Name) and reserveds[0].id == "Reserved",
           "build: expected exactly one  nextTokens[0] not in Reserved")
     out["loop_writes"], out["count_uses"] = layout_state(cls[0])
+    out["parser_connectives"] = parser_connective_literals(cls[0])
     return out
 
 
@@ -247,6 +280,9 @@ def render(t):
     lines.append("Definition gen_reserved : list (list Z) := [")
     lines.append(";\n".join("  %s (* %s *)" % (cstr(w), w.replace("*)", "* )")) for w in t["reserved"]))
     lines.append("].")
+    lines.append("(* connective literals the command parsers compare the current token with *)")
+    lines.append("Definition gen_parser_connectives : list (list Z) := [%s]." %
+                 "; ".join("%s (* %s *)" % (cstr(w), w.replace("*)", "* )")) for w in t["parser_connectives"]))
     lines.append("Definition gen_load_word : list Z := %s." % cstr(t["load_word"]))
     lines.append("Definition gen_cont_suffix : list Z := %s." % cstr(t["cont_suffix"]))
     lines.append("Definition gen_comment_char : list Z := %s." % cstr(t["comment_char"]))
